@@ -783,6 +783,18 @@ def monitor_step(ctx: fw.Ctx, case: dict, obs: dict, stub: bool) -> None:
         if d is not None and d > case['now'] and not rec_finished(before.get(hid)):
             ctx.fail('a handler was invoked before its recorded delay elapsed', data,
                      observed={'invoked': [hid, n], 'delayed': d, 'now': case['now']}, sig='invoked-while-sleeping')
+    # every invocation is an attempt, and attempts are recorded: retries + 1 in the patch of this very call (when the record
+    # is still there afterwards, i.e. the cycle was not closed / the record not purged), finishing or not
+    for hid, n in calls:
+        if sum(1 for c in calls if c[0] == hid) != 1:
+            continue
+        a = obs['after'].get(hid)
+        if a is None:
+            continue
+        had = (before.get(hid) or {}).get('retries') or 0
+        if (a.get('retries') or 0) != had + 1:
+            ctx.fail('an invocation was not counted: the recorded attempts of the invoked handler did not grow by one', data,
+                     observed={'invoked': [hid, n], 'before': before.get(hid), 'after': a}, expected=had + 1, sig='attempt-not-recorded')
     top_calls = [c for c in calls if stub or '/' not in c[0]]
     for hid, n in top_calls:
         if hid not in obs['selected']:
@@ -1185,6 +1197,7 @@ def run_history(ctx: fw.Ctx, hist: dict, cases: list[fw.Case], runs: list[fw.Cas
     explained: set[str] = set()
     last_reason = None
     total_calls = 0
+    attempts: dict[str, int] = {}      # invocations of an id since its record was (re)created, counted from the call log
     call_terms: list[str] = []
     traces: list[list] = []
     closings = 0
@@ -1246,6 +1259,18 @@ def run_history(ctx: fw.Ctx, hist: dict, cases: list[fw.Case], runs: list[fw.Cas
             succeeded.clear()
             explained.clear()
             last_reason = obs['reason']
+        # the n-th invocation of a handler (of any depth) since its progress started carries retry = n-1
+        for hid in list(attempts):
+            if obs['body_records'].get(hid) is None:
+                del attempts[hid]               # the record is gone (cycle closed / purged): the count starts anew
+        for hid, n in obs['calls']:
+            if hid in attempts or obs['body_records'].get(hid) is None:
+                cnt = attempts.get(hid, 0)
+                if n != cnt:
+                    ctx.fail('the retry number of an invocation is not the number of earlier invocations of that handler in this cycle',
+                             {'layer': 'function', 'stub': False, 'case': {**case, 'history': hist}}, observed={'invoked': [hid, n]},
+                             expected=cnt, sig='retry-not-attempt-count')
+                attempts[hid] = cnt + 1
         for hid, n in obs['calls']:
             total_calls += 1
             fin = final_of(case, obs, False, hid, n)
